@@ -15,6 +15,8 @@ Kernels (DESIGN.md section 4, C08):
         K1:types   chains  X0 := constant; X1 := f(X0); ...; context(X_last)  over all 13 value types
         K1:cli     the same programs through the REAL MainProgram.execute: exit code + identifier, and nothing
                    executed (no process, no sandbox) when rejected.                             [selector]
+        K1:suite   several case files run by ONE main program (`suite`): every case is judged from the builtins
+                   alone - a definition of one case is not visible in the next.                 [selector]
   K2  visibility at execution time: REAL `def` instructions (parsed from text) in symbolic phases, probe stub
       instructions after every position and a probe action-to-check, through the REAL executor:
       `environment.symbols` of every main step (and of act prepare / execute) holds exactly the builtins plus the
@@ -25,6 +27,14 @@ Kernels (DESIGN.md section 4, C08):
       elements; a list inside a string joined by single spaces.
         K3:cli     concrete values through the whole program, observed as the argv handed to subprocess:
                    strings, lists, paths as absolute paths.                                      [selector]
+  K4  a definition whose main step is SKIPPED because an earlier instruction failed (hard error in setup /
+      before-assert / assert, FAIL in assert), referenced from [cleanup] (which always runs), through the REAL
+      MainProgram.execute: the outcome is the one of the first failure (or a hard error of the cleanup
+      instruction) - never INTERNAL_ERROR / an exception.                                        [selector]
+
+Region (known finding; switched on by known_findings.json):
+  C08-cleanup-references-skipped-definition   the definition passed validation but never ran, and a [cleanup]
+      instruction evaluates the symbol: KeyError in SymbolTable.lookup -> INTERNAL_ERROR (exit 129)
 """
 import itertools
 from typing import List
@@ -146,10 +156,7 @@ def render(statements) -> str:
 def _check_validation(text, expected, oracle_bug: bool = False) -> bool:
     """Runs the real validation on `text` (a test-case text: real parse of the whole; or a list of statements:
     real parse per statement, cached) and compares with the model's expectation."""
-    predefined = lib.parsing()['builtins']()
-    res = lib.validate(text, predefined)
-    if sorted(predefined.names_set) != sorted(lib.BUILTINS):
-        return False  # the predefined table must not be touched
+    res = lib.validate(text)
     if expected is None:
         return res[0] == 'VALIDATION_ERROR'
     if res[0] != 'OK':
@@ -233,6 +240,43 @@ def _check_cli(text: str, expected) -> bool:
     if expected is None:
         return r['rc'] == 65 and r['ident'] == 'VALIDATION_ERROR' and not r['calls'] and not r['sandboxes']
     return r['rc'] == 0 and r['ident'] == 'PASS' and len(r['sandboxes']) == 1
+
+
+# ---------------------------------------------------------------------------- K1:suite
+
+def _pre_suite(k0: int, n0: int, r0: int, k1: int, n1: int, r1: int, k2: int, n2: int, r2: int) -> bool:
+    case = ob.case()
+    ks, ns, rs = (k0, k1, k2), (n0, n1, n2), (r0, r1, r2)
+    for i in range(3):
+        if i >= case['cases']:
+            if ks[i] != 0 or ns[i] != 0 or rs[i] != 0:
+                return False
+            continue
+        if not (0 <= ks[i] < case['kinds'] and 0 <= ns[i] < case['names'] and 0 <= rs[i] < case['names']):
+            return False
+        if (ks[i] == D and rs[i] != 0) or (ks[i] == R and ns[i] != 0):
+            return False  # unused selectors
+    return True
+
+
+def k1_suite(k0: int, n0: int, r0: int, k1: int, n1: int, r1: int, k2: int, n2: int, r2: int) -> bool:
+    """
+    pre: _pre_suite(k0, n0, r0, k1, n1, r1, k2, n2, r2)
+    post: _
+    """
+    case = ob.case()
+    n = case['cases']
+    texts, want = [], []
+    for k, nm, rf in ((k0, n0, r0), (k1, n1, r1), (k2, n2, r2))[:n]:
+        k, nm, rf = ob.concrete_int(k, 0, 2), ob.concrete_int(nm, 0, 2), ob.concrete_int(rf, 0, 2)
+        # every case of a suite is a test case of its own: one statement in [setup], judged from the builtins alone
+        statements, expected = order_program(('setup',), (k,), (nm,), (rf,), (0,))
+        texts.append(render(statements))
+        want.append('VALIDATION_ERROR' if expected is None else 'PASS')
+    if case.get('oracle_bug'):
+        want[-1] = 'PASS'
+    r = lib.run_suite(texts)
+    return ob.post(r['exc'] is None and r['statuses'] == want)
 
 
 # ============================================================================ K1:types
@@ -858,6 +902,112 @@ def k3_cli(si: int, li: int, pi: int, qi: int) -> bool:
     return ob.post(list(argv) == want and not shell)
 
 
+# ============================================================================ K4
+
+REGION_SKIPPED_DEF = 'C08-cleanup-references-skipped-definition'
+
+REAL_K4 = (
+    'exactly_lib.cli.main_program.MainProgram.execute',
+    'exactly_lib.execution.partial_execution.impl.executor._PartialExecutor.execute',
+    'exactly_lib.execution.partial_execution.impl.executor._PartialExecutor._sequence_with_cleanup',
+    'exactly_lib.execution.partial_execution.impl.executor._PartialExecutor._continue_from_before_assert',
+    'exactly_lib.execution.partial_execution.impl.executor._PartialExecutor._finish_with_cleanup_phase',
+    'exactly_lib.execution.partial_execution.impl.executor._PartialExecutor._cleanup_main',
+    'exactly_lib.execution.partial_execution.impl.executor._PartialExecutor._post_sds_main_environments',
+    'exactly_lib.execution.partial_execution.impl.executor._PartialExecutor._setup_post_sds_environment',
+    'exactly_lib.execution.partial_execution.impl.symbol_validation.SymbolsValidator.validate',
+    'exactly_lib.execution.impl.symbol_validation.validate_symbol_usages',
+    'exactly_lib.impls.instructions.multi_phase.define_symbol.parser.TheInstructionEmbryo.main',
+    'exactly_lib.util.symbol_table.SymbolTable.lookup',
+)
+
+# (label, phase, failing instruction, outcome of the case when nothing else goes wrong)
+K4_FAILURES = (
+    ('none', None, None, 'PASS'),
+    ('setup:cd-missing-dir', 'setup', 'cd missing-dir', 'HARD_ERROR'),
+    ('setup:run-failing-program', 'setup', 'run % ' + lib.FAILING_PROGRAM, 'HARD_ERROR'),
+    ('before-assert:cd-missing-dir', 'before-assert', 'cd missing-dir', 'HARD_ERROR'),
+    ('before-assert:failing-program', 'before-assert', '% ' + lib.FAILING_PROGRAM, 'HARD_ERROR'),
+    ('assert:exit-code', 'assert', 'exit-code == 1', 'FAIL'),  # the stub action to check exits with 0
+    ('assert:cd-missing-dir', 'assert', 'cd missing-dir', 'HARD_ERROR'),
+    ('assert:run-failing-program', 'assert', 'run % ' + lib.FAILING_PROGRAM, 'FAIL'),
+)
+K4_DEF_PHASES = ('setup', 'before-assert', 'assert', 'cleanup')
+# references from [cleanup]; the last does not evaluate the symbol
+K4_REFS = ('file f.txt = @[S]@', '% echo @[S]@', 'env V = "@[S]@"', 'def string T = @[S]@\n% echo "@[T]@"',
+           'def string T = @[S]@')
+K4_N_EVALUATING_REFS = 4
+K4_EXIT = {'PASS': 0, 'FAIL': 32, 'HARD_ERROR': 128}
+
+
+def _k4_skipped(fail, dphase: str, after: bool) -> bool:
+    """Is the main step of the definition skipped: it comes after the failing instruction in execution order
+    and is not in [cleanup] (which is always executed)?"""
+    flabel, fphase, fline, _ = fail
+    if fphase is None or dphase == 'cleanup':
+        return False
+    fi, di = lib.EXE_ORDER.index(fphase), lib.EXE_ORDER.index(dphase)
+    return di > fi or (di == fi and after)
+
+
+def _pre_k4(f: int, dp: int, after: bool, rf: int) -> bool:
+    case = ob.case()
+    if not (f in case['failures'] and 0 <= dp < len(K4_DEF_PHASES) and rf in case['refs']):
+        return False
+    fail = K4_FAILURES[f]
+    if after and K4_DEF_PHASES[dp] != fail[1]:
+        return False  # `after` orders the definition and the failing instruction inside one phase only
+    if (ob.excluded(REGION_SKIPPED_DEF) and _k4_skipped(fail, K4_DEF_PHASES[dp], after)
+            and rf < K4_N_EVALUATING_REFS):
+        # known finding: the definition was validated but never executed; [cleanup] evaluates the reference
+        return False
+    return True
+
+
+def k4_text(f: int, dp: int, after: bool, rf: int) -> str:
+    flabel, fphase, fline, _ = K4_FAILURES[f]
+    dphase = K4_DEF_PHASES[dp]
+    secs = {'setup': [], 'act': ['$ true'], 'before-assert': [], 'assert': [], 'cleanup': []}
+    if fphase is not None:
+        secs[fphase].append(fline)
+    if after or fphase != dphase:
+        secs[dphase].append('def string S = x')
+    else:
+        secs[dphase].insert(0, 'def string S = x')
+    secs['cleanup'].append(K4_REFS[rf])
+    return ''.join('[%s]\n%s\n' % (ph, '\n'.join(secs[ph])) for ph in lib.EXE_ORDER if secs[ph])
+
+
+def k4_cleanup_reference(f: int, dp: int, after: bool, rf: int) -> bool:
+    """
+    pre: _pre_k4(f, dp, after, rf)
+    post: _
+    """
+    case = ob.case()
+    f = ob.concrete_int(f, 0, len(K4_FAILURES) - 1)
+    dp = ob.concrete_int(dp, 0, len(K4_DEF_PHASES) - 1)
+    after = ob.concrete_bool(after)
+    rf = ob.concrete_int(rf, 0, len(K4_REFS) - 1)
+    fail = K4_FAILURES[f]
+    r = lib.run_cli(k4_text(f, dp, after, rf))
+    if r['exc'] is not None:
+        return ob.post(False)
+    first = fail[3]
+    if case.get('oracle_bug'):
+        first = 'PASS'
+    if _k4_skipped(fail, K4_DEF_PHASES[dp], after) and rf < K4_N_EVALUATING_REFS:
+        # the symbol cannot evaluate to its defined value (its definition never ran): any documented outcome of a
+        # case that failed - the first failure, or a hard error of the cleanup instruction - but no internal error
+        ok = (r['ident'], r['rc']) in (('FAIL', 32), ('HARD_ERROR', 128)) and (r['ident'] == first or r['ident'] == 'HARD_ERROR')
+    else:
+        ok = r['ident'] == first and r['rc'] == K4_EXIT[first]
+    if ok and r['ident'] == 'PASS':
+        # everything ran: the reference evaluated to the defined value
+        if rf == 1:
+            ok = (['echo', 'x'], False) in [(list(c[0]) if not isinstance(c[0], str) else c[0], c[1]) for c in r['calls']]
+    return ob.post(ok)
+
+
 # ============================================================================ obligations
 
 def _order_ob(name, phases, kinds, names, layouts, timeout, **extra):
@@ -963,6 +1113,23 @@ def obligations(tier: str) -> List[Ob]:
         obs.append(_order_ob('K1:cli:k2:%s' % '+'.join(ph), ph, 2, 2, lay, 2400, via='cli'))
     obs.append(_refute(_order_ob('K1:cli:seeded-oracle-error', ('setup', 'setup'), 2, 2, 'canon', 900, via='cli',
                                  oracle_bug='dup')))
+    # ------------------------------------------------------------------ K1: the cases of a suite are judged one by one
+    for ncases, kinds, names in (((2, 3, 2), (3, 2, 2), (2, 3, 3)) if thorough else ((2, 2, 2),)):
+        obs.append(Ob(name='K1:suite:cases%d:kinds%d:names%d' % (ncases, kinds, names), fn='k1_suite',
+                      case=dict(cases=ncases, kinds=kinds, names=names), kernel='K1', selector=True,
+                      bound='a suite of %d case files run by one main program; each case holds one [setup] statement: %s; names %s' % (
+                          ncases, ' | '.join(['def string N = constant', 'reference to R', 'def string N = x@[R]@y'][:kinds]),
+                          list(ORDER_NAMES[:names])),
+                      timeout=2400, real=REAL_VALIDATION + (
+                          'exactly_lib.cli.main_program.MainProgram.execute',
+                          'exactly_lib.processing.processors._Executor._exe_conf_that_may_be_updated',
+                          'exactly_lib.execution.partial_execution.impl.executor._PartialExecutor.execute'),
+                      stubs=_STUBS_CLI + ('sandbox_dir_resolving.mk_tmp_dir_with_prefix -> counter-named directories',),
+                      entry='MainProgram.execute(["suite", FILE])',
+                      outside=('suites of more cases; sub-suites; cases run in separate processes (C17)',)))
+    obs.append(_refute(Ob(name='K1:suite:seeded-oracle-error', fn='k1_suite', case=dict(cases=2, kinds=2, names=1, oracle_bug=True),
+                          kernel='K1', selector=True, bound='seeded: a definition of an earlier case is visible in the next',
+                          timeout=900)))
     # ------------------------------------------------------------------ K1:types
     for i, xs in enumerate(_chunks(all_x, 6)):
         obs.append(_types_ob('K1:types:direct:%d' % i, 0, all_c, [], xs, 900))
@@ -1076,6 +1243,22 @@ def obligations(tier: str) -> List[Ob]:
     obs.append(_refute(Ob(name='K3:seeded-oracle-error', fn='k3_substitution',
                           case=dict(program='list:a-L-b', maxlen=1, used='L', oracle_bug=True), kernel='K3',
                           bound='seeded: the oracle drops the last element', timeout=300)))
+    # ------------------------------------------------------------------ K4
+    k4 = [([5], [0, 4]), ([1, 3], [0, 4])]
+    if thorough:
+        k4 = [([f], list(range(len(K4_REFS)))) for f in range(len(K4_FAILURES))]
+    for fs, rfs in k4:
+        obs.append(Ob(name='K4:skipped-def:%s' % '+'.join(K4_FAILURES[f][0] for f in fs), fn='k4_cleanup_reference',
+                      case=dict(failures=tuple(fs), refs=tuple(rfs)), kernel='K4', selector=True,
+                      bound='failing instruction %s; `def string S = x` in any of %s, before or after the failing instruction '
+                            'inside its phase; [cleanup] holds one of %s' % (
+                                [K4_FAILURES[f][0] for f in fs], list(K4_DEF_PHASES), [K4_REFS[i] for i in rfs]),
+                      timeout=2400, real=REAL_K4, stubs=_STUBS_CLI + ('the stub process named %s exits with 1' % lib.FAILING_PROGRAM,),
+                      entry='MainProgram.execute([FILE])',
+                      outside=('failures other than the catalogued', 'references from [cleanup] other than the catalogued')))
+    obs.append(_refute(Ob(name='K4:seeded-oracle-error', fn='k4_cleanup_reference', case=dict(failures=(5,), refs=(4,), oracle_bug=True),
+                          kernel='K4', selector=True, bound='seeded: the oracle expects PASS although an assertion fails',
+                          timeout=900)))
     names = [o.name for o in obs]
     assert len(names) == len(set(names)), 'duplicate obligation names'
     return obs
